@@ -558,6 +558,61 @@ def sequences(tier, ngen, r):
 
 # ---------------------------------------------------------------------------------------------
 
+# ---- (c) lazy built-in iterators keep working after the iterator they wrap has raised: the exception passes through unchanged and the
+# next next() asks the wrapped iterator again (nothing latches except exhaustion of a generator).
+RESUME_PRE = """class Flaky:
+    def __init__(self, tag, n, bad, exc):
+        self.tag = tag
+        self.i = 0
+        self.n = n
+        self.bad = bad
+        self.exc = exc
+    def __iter__(self):
+        return self
+    def __next__(self):
+        self.i += 1
+        print("p", self.tag, self.i)
+        if self.i in self.bad:
+            raise self.exc
+        if self.i > self.n:
+            raise StopIteration
+        return self.i
+def idf(v):
+    return v
+def f2(a, b):
+    return (b, a)
+def odd(v):
+    return v % 2
+def drive(it, k):
+    for j in range(k):
+        try:
+            v = next(it)
+            print("got", v)
+        except ValueError:
+            print("VE")
+        except KeyError:
+            print("KE")
+        except StopIteration:
+            print("SI")
+"""
+RESUME_WRAPPERS = {
+    'zip-first': 'zip(F, "uvwxyz")', 'zip-second': 'zip("uvwxyz", F)', 'zip-two-flaky': 'zip(F, Flaky("g", 5, (3,), KeyError("k")))', 'zip-three': 'zip([9, 8, 7, 6, 5, 4], F, "uvwxyz")',
+    'map-1': 'map(idf, F)', 'map-2': 'map(f2, F, "uvwxyz")', 'filter-none': 'filter(None, F)', 'filter-pred': 'filter(odd, F)', 'enumerate': 'enumerate(F)', 'enumerate-start': 'enumerate(F, 10)',
+    'iter': 'iter(F)', 'genexp': '(v for v in F)', 'callable-iter': 'iter(lambda: next(F), 4)', 'enumerate-zip': 'enumerate(zip(F, "uvwxyz"))', 'map-filter': 'map(idf, filter(None, F))',
+    'zip-genexp': 'zip((v for v in F), "uvwxyz")', 'zip-map': 'zip(map(idf, F), "uvwxyz")',
+}
+
+
+def resume_programs():
+    out = []
+    for wn, w in RESUME_WRAPPERS.items():
+        for bi, bad in enumerate(['(2,)', '(1,)', '(2, 3)', '(6,)', '(1, 2, 3, 4, 5)', '()']):
+            for exc in ('ValueError("t")', 'KeyError("k")'):
+                src = RESUME_PRE + 'F = Flaky("f", 5, %s, %s)\nit = %s\ndrive(it, 4)\ntry:\n    print("rest", list(it))\nexcept ValueError:\n    print("rest VE")\nexcept KeyError:\n    print("rest KE")\ndrive(it, 3)\nprint("end", F.i)\n' % (bad, exc, w)
+                out.append({'id': 'res-%s-%d-%s' % (wn, bi, exc[0]), 'src': src, 'wrapper': wn, 'bad': bad})
+    return out
+
+
 CANARY = [
     'print("v", 1)\nprint("X", "ok")\n',
     'def g():\n    yield 1\n    yield 2\nit = g()\nprint(next(it))\nprint(next(it))\nprint(next(it, 7))\n',
@@ -698,6 +753,30 @@ def run(tier, rep):
     missing = sorted(all_feat - clean_feat)
     if missing:
         stats['a_features_without_any_agreeing_case'] = missing
+
+    # ---------------- (c) lazy iterators resumed after a fault ----------------
+    rp = resume_programs()
+    rexp = oracle_exec(rp)
+    rgot, _ = run_vrun('exec', rp, timeout_case=20)
+    for c in rp:
+        e, g = rexp.get(c['id']), rgot.get(c['id'])
+        if e is None or e.get('oracle_failed') or g is None or g.get('timeout'):
+            rep.inconc('c: no result %s' % c['id'])
+            continue
+        if e.get('cerr') or e.get('exc'):
+            rep.broke('c: generator bug, CPython: %s for %s' % (short(e.get('exc') or e.get('cerr')), c['id']))
+            continue
+        rep.evaluations += 1
+        nontriv.add(('c', c['wrapper'], c['bad']))
+        if g.get('panic') or g.get('crash') or g.get('exc') or g.get('cerr') or g.get('out') != e.get('out'):
+            el, gl = (e.get('out') or '').split('\n'), (g.get('out') or '').split('\n')
+            k = next((i for i, (x, y) in enumerate(zip(el, gl + [''] * len(el))) if x != y), len(el))
+            phase_ = 'before-first-fault' if not any(x in ('VE', 'KE') for x in el[:k]) else ('rest' if any(x.startswith('rest') for x in el[:k + 1]) and not any(x.startswith('rest') for x in el[:k]) else 'after-fault')
+            rep.violation('C05|c|resume-after-fault|wrapper=%s|%s' % (c['wrapper'], 'panic' if g.get('panic') or g.get('crash') else ('escaped:%s' % g['exc'] if g.get('exc') else phase_)),
+                          {'case': {'id': c['id'], 'src': c['src']}, 'wrapper': RESUME_WRAPPERS[c['wrapper']], 'fault_positions': c['bad'], 'expected': {k_: e.get(k_) for k_ in ('out', 'exc')},
+                           'got': {k_: short(g.get(k_), 2000) for k_ in ('out', 'exc', 'excmsg', 'cerr', 'panic', 'stack') if g.get(k_)}, 'first_divergent_line': k})
+    stats['c_resume_programs'] = len(rp)
+    stats['c_wrappers'] = len(RESUME_WRAPPERS)
 
     # ---------------- (b) ----------------
     ngen = 2 if quick else 3
